@@ -356,7 +356,8 @@ Record cstate := {
 
 Definition msg_okey (m : cmsg) : okey := (m_kind m, m_token m, m_nonce m).
 
-Inductive cerr := ENoObject | ECheckpoint | ESigDecode | ENoOracle | EExternal | EBridger | ESignature | EDuplicate.
+Inductive cerr := ENoObject | ECheckpoint | ESigDecode | ENoOracle | EExternal | EBridger | ESignature | EDuplicate
+                 | EAnte | ENoInner | EWrapper.
 Inductive cres := Accepted (k : ckey) | Rejected (e : cerr).
 
 (* EthAddressFromSignature / TronAddressFromSignature: v = 27|28 is rewritten to 0|1 *)
@@ -456,11 +457,31 @@ End Confirm.
 
 (* ---------- the transaction level: who has to sign ---------- *)
 
-(* MsgConfirmBatch / MsgOracleSetConfirm / MsgBridgeCallConfirm sent directly: the protobuf
-   signer option names bridger_address, the field ConfirmHandler compares with the oracle record.
-   MsgConfirm{bridger_address, confirm: Any}: the signer option names the WRAPPER's
-   bridger_address; MsgConfirm has no ValidateBasic and MsgServer.Confirm hands the inner message
-   to ConfirmHandler unchanged, so the wrapper's bridger_address is compared with nothing. *)
+(* MsgConfirmBatch / MsgOracleSetConfirm / MsgBridgeCallConfirm sent directly: the protobuf signer
+   option names bridger_address, the field ConfirmHandler compares with the oracle record.
+   MsgConfirm{bridger_address, confirm: Any}: the signer option names the WRAPPER's bridger_address;
+   MsgServer.Confirm hands the wrapped message to ConfirmHandler unchanged.  Two facts about the tree
+   decide what that means; both are read from the sources by the translator (Gen_Checkpoint):
+     msgconfirm_unpacks               MsgConfirm implements UnpackInterfaces.  Without it a MsgConfirm decoded
+                                      from transaction bytes carries no wrapped message (GetCachedValue() = nil)
+                                      and MsgServer.Confirm refuses it ("invalid claim").
+     msgconfirm_vb_compares_bridger   MsgConfirm has a ValidateBasic that compares its bridger_address with the
+                                      wrapped confirm's. *)
 Inductive txmsg := TxDirect (m : cmsg) | TxWrapped (wrapper_bridger : Z) (m : cmsg).
 Definition tx_signer (t : txmsg) : Z := match t with TxDirect m => m_bridger m | TxWrapped w _ => w end.
 Definition tx_inner (t : txmsg) : cmsg := match t with TxDirect m => m | TxWrapped _ m => m end.
+
+Section Tx.
+  Variable recover : bool -> list Z -> list Z -> option Z.
+  (* unpacks: the wrapped message is available to the handler (true for a message object built in memory;
+     msgconfirm_unpacks for a transaction decoded from bytes);  checks: the ValidateBasic comparison exists *)
+  Definition tx_deliver (unpacks checks : bool) (st : cstate) (signed_by : Z) (t : txmsg) : cres :=
+    if negb (signed_by =? tx_signer t) then Rejected EAnte       (* signature verification against GetMsgV1Signers *)
+    else match t with
+         | TxDirect m => handle recover st m
+         | TxWrapped w m =>
+             if negb unpacks then Rejected ENoInner
+             else if checks && negb (w =? m_bridger m) then Rejected EWrapper
+             else handle recover st m
+         end.
+End Tx.
